@@ -114,6 +114,9 @@ Definition set_e_x (ex : exe) (x : executor) : exe :=
 Record eff := { f_store : list (skey * value); f_clock : nat; f_next : nat;
                 f_launch : list (nat * nat * nat); f_val : value; f_x : executor }.
 
+(* a recorded base time is always a VBase (get_base_time parses what it stored) *)
+Definition base_of (v : value) : nat := match v with VBase b => b | _ => 0 end.
+
 Definition seed_wf (c : cfg) (w : nat) : nat := if c_seed_wf c then w else 0.
 
 Definition det_op (c : cfg) (W : world) (x : executor) (k : opk) : eff :=
@@ -131,8 +134,8 @@ Definition det_op (c : cfg) (W : world) (x : executor) (k : opk) : eff :=
         | Uid => (store W, clock W, VUuid (seed_wf c xw) g)
         | Tim =>
             match slookup (xw, KBase) (store W) with
-            | Some (VBase b) => (store W, clock W, VTime b g)
-            | _ => (((xw, KBase), VBase (clock W)) :: store W, S (clock W), VTime (clock W) g)
+            | Some bv => (store W, clock W, VTime (base_of bv) g)
+            | None => (((xw, KBase), VBase (clock W)) :: store W, S (clock W), VTime (clock W) g)
             end
         end in
       let st2 := ((xw, KOp k n), v) :: st1 in
@@ -232,3 +235,52 @@ Definition render (W : world) : list (list (list nat)) :=
 Definition with_scope (c : cfg) (s : scope) : cfg :=
   {| c_scope := s; c_seed_wf := c_seed_wf c; c_task_key_call := c_task_key_call c;
      c_seq_offset := c_seq_offset c |}.
+
+(* ---------------------------------------------------------------- the property, at full strength *)
+(* "the n-th deterministic random number, timestamp or UUID requested by a task is the same every
+   time that task body is executed again for the same workflow" — any executions e1 e2 of one
+   workflow, whatever their process image, task object, position in the history or interleaving *)
+Definition nth_value_stable_stmt (c : cfg) : Prop :=
+  forall evs e1 e2 w k n v1 v2,
+    wf_of (run c evs) e1 = Some w -> wf_of (run c evs) e2 = Some w ->
+    nth_error (vals e1 k (outs (run c evs))) n = Some v1 ->
+    nth_error (vals e2 k (outs (run c evs))) n = Some v2 ->
+    v1 = v2.
+
+Definition launch_key (l : nat * nat * nat) : nat * nat := (fst (fst l), snd (fst l)).
+
+(* "a sub-task launched through the workflow helper is launched once per workflow and identical
+   call, later executions getting the recorded invocation back" *)
+Definition sub_task_once_stmt (c : cfg) : Prop :=
+  forall evs,
+    NoDup (map launch_key (launches (run c evs))) /\
+    (forall e w call v, wf_of (run c evs) e = Some w -> In (e, OExec call, v) (outs (run c evs)) ->
+       exists i, v = VInv i /\ In (w, call, i) (launches (run c evs))) /\
+    (forall e1 e2 w call v1 v2,
+       wf_of (run c evs) e1 = Some w -> wf_of (run c evs) e2 = Some w ->
+       In (e1, OExec call, v1) (outs (run c evs)) -> In (e2, OExec call, v2) (outs (run c evs)) ->
+       v1 = v2).
+
+(* "values and records of different workflows never mix": values returned to executions of
+   different workflows are different (symbolic) values, and a helper call of an execution leaves
+   the workflow data of every other workflow untouched *)
+Definition no_mix_stmt (c : cfg) : Prop :=
+  forall evs,
+    (forall e1 e2 w1 w2 o1 o2 v1 v2,
+       wf_of (run c evs) e1 = Some w1 -> wf_of (run c evs) e2 = Some w2 -> w1 <> w2 ->
+       In (e1, o1, v1) (outs (run c evs)) -> In (e2, o2, v2) (outs (run c evs)) -> v1 <> v2) /\
+    (forall e o w w' key,
+       wf_of (run c evs) e = Some w -> w' <> w ->
+       slookup (w', key) (store (step c (run c evs) (EOp e o))) = slookup (w', key) (store (run c evs))).
+
+Definition C18_statement (c : cfg) : Prop :=
+  nth_value_stable_stmt c /\ sub_task_once_stmt c /\ no_mix_stmt c.
+
+(* provenance of a value with respect to a workflow *)
+Definition owned (W : world) (w : nat) (v : value) : Prop :=
+  match v with
+  | VRand w' _ | VUuid w' _ => w' = w
+  | VTime b _ => slookup (w, KBase) (store W) = Some (VBase b)
+  | VInv i => exists call, In (w, call, i) (launches W)
+  | VBase _ | VCount _ => False
+  end.
